@@ -64,6 +64,7 @@ type Oblig struct {
 	TimeMS  int64
 	Model   string
 	noSplit bool
+	coi bool
 	lite bool
 	NoSolve string
 	quickOnly bool
@@ -223,6 +224,13 @@ func (r *FnRun) errorf(format string, a ...any) {
 }
 
 func (st *State) assume(s string) {
+	// conjunctions are added conjunct by conjunct (relevance pruning works per assertion)
+	if strings.HasPrefix(s, "(and ") {
+		for _, p := range splitSexp(s[5 : len(s)-1]) {
+			st.assume(p)
+		}
+		return
+	}
 	st.pc = st.pc.add(s)
 }
 
